@@ -500,10 +500,13 @@ class ApplyLinks(Processor):
         # we do this here becuase that's more efficent
         if self.nodes_to_remove:
             molecule.remove_nodes_from(self.nodes_to_remove)
-            # make sure the residue graph is updated; this takes care that
-            # nodes are also removed from the fragment graphs in the
-            # meta_molecule.nodes['graph'] attribute
-            meta_molecule.relabel_and_redo_res_graph(mapping={})
+            # make sure that the nodes are also removed from the fragment graphs
+            # in the meta_molecule.nodes['graph'] attribute; the residue graph
+            # itself (i.e. resids, residue attributes, and edges) stays as requested
+            for res_node in meta_molecule.nodes:
+                fragment = meta_molecule.nodes[res_node]["graph"]
+                fragment.remove_nodes_from([node for node in self.nodes_to_remove
+                                            if node in fragment])
         # now we add all interactions but not the ones that contain the removed
         # nodes
         for inter_type in self.applied_links:
